@@ -3,8 +3,10 @@
    The model carries one boolean per repair (Model/FileIndex.v: sfx; Model/ModulePath.v: the last five fields of rcfg);
    `repaired cfg` = all of them on = the code in /repo (fix: commits of fixes/C09-deterministic-order.diff,
    fixes/C18-dotted-path.diff (1473636), fixes/C18-dofile-no-suffix.diff (526bcd1), fixes/C18-dot-slash-definition.diff (49c8cf0),
-   fixes/C18-create-not-reanalysed.diff (f48e6f9); RemoveOneFile repaired by ec76861). The theorems about the variants before a
-   repair are kept, named *_before_fix / *_prefix_refuted. *)
+   fixes/C18-create-not-reanalysed.diff (f48e6f9), fixes/C18-string-cursor.diff (9e1e7b2); RemoveOneFile repaired by
+   ec76861; calcMatchStrScore repaired by fixes/C18-score-position.diff (1f59be9) = the constant
+   ModulePath.score_deployed). The theorems about the variants before a repair are kept, named *_before_fix /
+   *_prefix_refuted. *)
 From Coq Require Import List NArith Bool.
 From LH Require Import Base.Bytes Model.FileIndex Model.ModulePath Spec.ModuleSpec Proofs.FileIndexProofs
   Proofs.ModulePathDet.
@@ -12,7 +14,7 @@ Import ListNotations.
 Local Open Scope N_scope.
 
 Definition repaired (cfg : rcfg) : bool :=
-  order_fixed cfg && stem_fixed cfg && lit_fixed cfg && dotslash_fixed cfg && reanalyse_fixed cfg.
+  order_fixed cfg && stem_fixed cfg && lit_fixed cfg && dotslash_fixed cfg && reanalyse_fixed cfg && cursor_fixed cfg.
 
 (* ---- the file index as a state machine over create/delete events ---- *)
 
@@ -73,7 +75,8 @@ Example C18_index_guard_inhabited :
 Proof. cbv zeta. repeat split; vm_compute; reflexivity. Qed.
 
 (* ---- resolution: CheckReferFile against the documented mapping ---- *)
-From LH Require Import Proofs.ModulePathStr Proofs.ModulePathProofs Proofs.ModulePathEvents Proofs.ModulePathScore.
+From LH Require Import Proofs.ModulePathStr Proofs.ModulePathProofs Proofs.ModulePathEvents Proofs.ModulePathScore
+  Proofs.ModulePathCursor.
 
 (* full statement: whatever the workspace of ".lua" files (all_lua: the domain of the documented mapping - name.lua,
    name/init.lua; it only constrains require-style references), whatever the settings, the disk, the referencing file
@@ -93,7 +96,7 @@ Print Assumptions C18_resolve_conforms.
 
 Lemma repaired_flags cfg : repaired cfg = true ->
   order_fixed cfg = true /\ stem_fixed cfg = true /\ lit_fixed cfg = true /\ dotslash_fixed cfg = true /\
-  reanalyse_fixed cfg = true.
+  reanalyse_fixed cfg = true /\ cursor_fixed cfg = true.
 Proof.
   unfold repaired. intros H. repeat (apply andb_true_iff in H as [H ?]). repeat split; assumption.
 Qed.
@@ -133,9 +136,11 @@ Print Assumptions C18_type6_iff.
    nothing. Proved twice: C18_features_agree when at most one workspace file matches each documented candidate
    (unique_match, the `unique_best` of the plan), and C18_features_agree_ties for ANY number of equally named modules
    (the repaired deterministic choice picks the same file in both features because the score of a candidate does not
-   depend on whether it is computed from "name" - analysis - or "name.lua" - definition) for every module name except
-   the six that occur inside the text "lua" (a, l, u, lu, ua, lua: strings.LastIndex then finds the name inside the
-   suffix). What is missing for the full statement: those six names with several matching files. *)
+   depend on whether it is computed from "name" - analysis - or "name.lua" - definition). Since
+   fixes/C18-score-position.diff the score is taken from the occurrence of "/" + name, so the six module names that occur
+   inside the text "lua" (a, l, u, lu, ua, lua: strings.LastIndex found the name inside the suffix) are no exception any
+   more: C18_features_agree_full_proved. The string is the one GetOpenFileStr finds under the cursor
+   (C18_features_agree_cursor, C18_cursor_*: located by position since fixes/C18-string-cursor.diff). *)
 Definition C18_features_agree_full : Prop :=
   forall disk cfg st files cur m, repaired cfg = true -> index_ok true st files -> all_lua files = true ->
     exact_mode cfg = false ->
@@ -171,7 +176,6 @@ Theorem C18_features_agree_ties : forall disk cfg st files cur m,
   m' <> [] ->
   mem_bytes m' (ignore_refer cfg) = false -> mem_bytes m' (ignore_modules cfg) = false ->
   disk (complete_path (main_dir cfg) (doc_so m')) = false ->
-  lua_overlap (mod_path m') = false ->
   let out := check_refer disk cfg st cur KRequire m in
   let oo := open_outcomes cfg st (fun f => fmem f files) cur (open_list cfg true false m) in
   (r_resolved out = [] /\ oo = [None]) \/
@@ -179,6 +183,17 @@ Theorem C18_features_agree_ties : forall disk cfg st files cur m,
                 (it = doc_lua m' \/ it = doc_init m')).
 Proof. exact features_agree_scored. Qed.
 Print Assumptions C18_features_agree_ties.
+
+(* the full statement, no module name excepted *)
+Theorem C18_features_agree_full_proved : C18_features_agree_full.
+Proof.
+  intros disk cfg st files cur m Hr Hok Hlua He. cbv zeta. intros Hm Hi1 Hi2 Hso.
+  destruct (repaired_flags cfg Hr) as [Ho [_ [_ [Hds _]]]].
+  destruct (features_agree_scored disk cfg st files cur m Hok Hlua He Hds Ho Hm Hi1 Hi2 Hso) as [H|[it [c [H1 [H2 [H3 [_ H4]]]]]]].
+  - left. exact H.
+  - right. exists it, c. repeat split; assumption.
+Qed.
+Print Assumptions C18_features_agree_full_proved.
 
 (* the code before fixes/C18-dotted-path.diff and fixes/C18-dot-slash-definition.diff: simple names only, no "./" *)
 Theorem C18_features_agree_before_fix : forall disk cfg st files cur m,
@@ -230,7 +245,7 @@ Print Assumptions C18_events_fresh.
 
 Theorem C18_events_full_proved : C18_events_full.
 Proof.
-  intros cfg cur refs disk lua events Hr. destruct (repaired_flags cfg Hr) as [Ho [_ [_ [_ Hre]]]].
+  intros cfg cur refs disk lua events Hr. destruct (repaired_flags cfg Hr) as [Ho [_ [_ [_ [Hre _]]]]].
   exact (events_fresh cfg cur Ho Hre refs disk lua events).
 Qed.
 Print Assumptions C18_events_full_proved.
@@ -265,9 +280,9 @@ Print Assumptions C18_reacts_to_events_unfixed.
 (* ---- witnesses: every former refutation as a before / after pair ---- *)
 (* root "/ws"; ws_cfg = the deployed code; ws_cfg_r1 = before the four repairs of this round (deterministic choice
    already repaired); ws_cfg_prefix = before that one too *)
-Definition ws_cfg : rcfg := mk_rcfg false [] system_modules [47; 119; 115] true true true true true.
-Definition ws_cfg_r1 : rcfg := mk_rcfg false [] system_modules [47; 119; 115] true false false false false.
-Definition ws_cfg_prefix : rcfg := mk_rcfg false [] system_modules [47; 119; 115] false false false false false.
+Definition ws_cfg : rcfg := mk_rcfg false [] system_modules [47; 119; 115] true true true true true true.
+Definition ws_cfg_r1 : rcfg := mk_rcfg false [] system_modules [47; 119; 115] true false false false false false.
+Definition ws_cfg_prefix : rcfg := mk_rcfg false [] system_modules [47; 119; 115] false false false false false false.
 Definition f_ws_d_m : list N := [47;119;115;47;100;47;109;46;108;117;97].                    (* /ws/d/m.lua *)
 Definition f_ws_cur : list N := [47;119;115;47;99;46;108;117;97].                            (* /ws/c.lua *)
 Definition f_ws_m_test : list N := [47;119;115;47;109;46;116;101;115;116;46;108;117;97].     (* /ws/m.test.lua *)
@@ -456,3 +471,152 @@ Theorem C18_resolution_tie_prefix_refuted :
      = [[f_ws_b_d_m]]).
 Proof. cbv zeta. repeat split; vm_compute; reflexivity. Qed.
 Print Assumptions C18_resolution_tie_prefix_refuted.
+
+(* ---- the string under the cursor (head of stringutil.GetOpenFileStr; fixes/C18-string-cursor.diff) ----
+   The regular expressions are an oracle: `groups` = per pattern (dofile, require, configured import with / without a
+   ".lua" text), in the order the code tries them, the places where the expression matches on the line and where the
+   quoted literal is inside each match. *)
+
+(* full statement: wherever the cursor is inside the literal of a matched import expression - any column from the first
+   character to the closing quote, whatever else is on the line, whatever pos.Character says - the deployed code
+   answers that literal; and it answers nothing only when no literal holds the cursor *)
+Definition C18_string_cursor_full : Prop :=
+  forall cfg line col ch groups, repaired cfg = true ->
+    (forall o, one_span col groups = true -> In o (all_occs groups) -> hit_pos col o = true ->
+       exists p, cursor_pick (cursor_fixed cfg) line col ch groups = Some (p, occ_lit line o)) /\
+    (cursor_pick (cursor_fixed cfg) line col ch groups = None <->
+       forall o, In o (all_occs groups) -> hit_pos col o = false).
+
+Theorem C18_cursor_exact : forall line col ch groups o,
+  one_span col groups = true -> In o (all_occs groups) -> hit_pos col o = true ->
+  exists p, cursor_pick true line col ch groups = Some (p, occ_lit line o).
+Proof. exact cursor_pick_fixed_exact. Qed.
+Print Assumptions C18_cursor_exact.
+
+Theorem C18_cursor_sound : forall line col ch groups p s,
+  cursor_pick true line col ch groups = Some (p, s) ->
+  exists os o, In (p, os) groups /\ In o os /\ hit_pos col o = true /\ s = occ_lit line o.
+Proof. exact cursor_pick_fixed_sound. Qed.
+Print Assumptions C18_cursor_sound.
+
+Theorem C18_cursor_none_iff : forall line col ch groups,
+  cursor_pick true line col ch groups = None <-> forall o, In o (all_occs groups) -> hit_pos col o = false.
+Proof. exact cursor_pick_fixed_none. Qed.
+Print Assumptions C18_cursor_none_iff.
+
+Theorem C18_string_cursor_full_proved : C18_string_cursor_full.
+Proof.
+  intros cfg line col ch groups Hr. destruct (repaired_flags cfg Hr) as [_ [_ [_ [_ [_ Hc]]]]]. rewrite Hc. split.
+  - intros o H1 Hin Hh. exact (cursor_pick_fixed_exact line col ch groups o H1 Hin Hh).
+  - exact (cursor_pick_fixed_none line col ch groups).
+Qed.
+Print Assumptions C18_string_cursor_full_proved.
+
+(* from the cursor to the file: when the string under the cursor is the argument m of a require, definition and hover
+   (run on the candidate list of the WHOLE GetOpenFileStr, cursor_list) answer the file the analysis loaded for m *)
+Theorem C18_features_agree_cursor : forall disk cfg st files cur line col ch groups m,
+  index_ok true st files -> all_lua files = true ->
+  exact_mode cfg = false -> dotslash_fixed cfg = true -> order_fixed cfg = true -> cursor_fixed cfg = true ->
+  cursor_pick true line col ch groups = Some (PRequire, m) ->
+  let m' := remove_pre_str m in
+  m' <> [] ->
+  mem_bytes m' (ignore_refer cfg) = false -> mem_bytes m' (ignore_modules cfg) = false ->
+  disk (complete_path (main_dir cfg) (doc_so m')) = false ->
+  let out := check_refer disk cfg st cur KRequire m in
+  let oo := open_outcomes cfg st (fun f => fmem f files) cur (cursor_list cfg line col ch groups) in
+  (r_resolved out = [] /\ oo = [None]) \/
+  (exists it c, r_resolved out = [c] /\ oo = [Some (it, c)] /\ path_suffix it c = true /\ In c files /\
+                (it = doc_lua m' \/ it = doc_init m')).
+Proof. exact features_agree_cursor. Qed.
+Print Assumptions C18_features_agree_cursor.
+
+(* witnesses: the code before the repair (ws_cfg_r1: cursor_fixed = false) against the deployed one (ws_cfg) *)
+Definition ln_require_re : list N := [108; 111; 99; 97; 108; 32; 97; 32; 61; 32; 114; 101; 113; 117; 105; 114; 101; 40; 34; 114; 101; 34; 41].  (* local a = require("re") *)
+Definition ln_dofile_sq : list N := [100; 111; 102; 105; 108; 101; 40; 39; 99; 111; 110; 102; 46; 108; 117; 97; 39; 41].  (* dofile('conf.lua') *)
+Definition ln_twice : list N := [108; 111; 99; 97; 108; 32; 97; 44; 32; 98; 32; 61; 32; 114; 101; 113; 117; 105; 114; 101; 40; 34; 109; 109; 34; 41; 44; 32; 114; 101; 113; 117; 105; 114; 101; 40; 34; 109; 109; 34; 41].  (* local a, b = require("mm"), require("mm") *)
+Definition ln_utf : list N := [108; 111; 99; 97; 108; 32; 115; 32; 61; 32; 34; 195; 169; 195; 169; 34; 59; 32; 108; 111; 99; 97; 108; 32; 97; 32; 61; 32; 114; 101; 113; 117; 105; 114; 101; 40; 34; 109; 109; 34; 41].  (* local s = "éé"; local a = require("mm") : é = 2 bytes, 1 UTF-16 unit *)
+Definition ln_import : list N := [108; 111; 99; 97; 108; 32; 97; 32; 61; 32; 105; 109; 112; 111; 114; 116; 40; 34; 109; 109; 34; 41].  (* local a = import("mm") *)
+
+(* (a) a module name that occurs inside the word `require`: strings.Index(matched text, "re") = 0 *)
+Theorem C18_cursor_prefix_refuted :
+  (* require("re"), cursor on the string (column 20): nothing before the repair - and the cursor on the WORD
+     require (column 11) was taken for the string *)
+  (let g := [(PDofile, []); (PRequire, [mk_occ 10 23 8 12]); (PImportLua, []); (PImport, [])] in
+   hit_pos 20 (mk_occ 10 23 8 12) = true /\
+   cursor_pick false ln_require_re 20 20 g = None /\
+   cursor_pick false ln_require_re 11 11 g = Some (PRequire, [114; 101]) /\
+   cursor_pick true ln_require_re 20 20 g = Some (PRequire, [114; 101]) /\
+   cursor_pick true ln_require_re 11 11 g = None) /\
+  (* (b) dofile('conf.lua'): the dofile pattern accepted double quotes only - no match at all before the repair *)
+  (let g_old := [(PDofile, []); (PRequire, []); (PImportLua, []); (PImport, [])] in
+   let g := [(PDofile, [mk_occ 0 18 7 17]); (PRequire, []); (PImportLua, []); (PImport, [])] in
+   cursor_list ws_cfg_r1 ln_dofile_sq 10 10 g_old = [] /\
+   cursor_list ws_cfg ln_dofile_sq 10 10 g = [[99; 111; 110; 102; 46; 108; 117; 97]; [99; 111; 110; 102; 46; 115; 111]]) /\
+  (* (c) the same require twice on a line, cursor on the second string (column 38): strings.Index(line, text) finds the first *)
+  (let g := [(PDofile, []); (PRequire, [mk_occ 13 26 8 12; mk_occ 28 41 8 12]); (PImportLua, []); (PImport, [])] in
+   cursor_pick false ln_twice 38 38 g = None /\
+   cursor_pick true ln_twice 38 38 g = Some (PRequire, [109; 109]) /\ one_span 38 g = true) /\
+  (* (e) non-ASCII text before the require: byte column 37 is character 35 *)
+  (let g := [(PDofile, []); (PRequire, [mk_occ 28 41 8 12]); (PImportLua, []); (PImport, [])] in
+   cursor_pick false ln_utf 37 35 g = None /\
+   cursor_pick true ln_utf 37 35 g = Some (PRequire, [109; 109])) /\
+  (* (d) a suffix-less configured import whose module is a package directory: the analysis loads mm/init.lua,
+         the candidate list had no init.lua item *)
+  (let g := [(PDofile, []); (PRequire, []); (PImportLua, []); (PImport, [mk_occ 10 22 7 11])] in
+   let files := [f_ws_main; [47; 119; 115; 47; 109; 109; 47; 105; 110; 105; 116; 46; 108; 117; 97]] in
+   let st := idx_run (map Ins files) in
+   r_resolved (check_refer (fun _ => false) ws_cfg st f_ws_main KFrameNoSuffix [109; 109]) = [[47; 119; 115; 47; 109; 109; 47; 105; 110; 105; 116; 46; 108; 117; 97]] /\
+   open_outcomes ws_cfg_r1 st (fun _ => true) f_ws_main (cursor_list ws_cfg_r1 ln_import 18 18 g) = [None] /\
+   open_outcomes ws_cfg st (fun _ => true) f_ws_main (cursor_list ws_cfg ln_import 18 18 g)
+     = [Some ([109; 109; 47; 105; 110; 105; 116; 46; 108; 117; 97], [47; 119; 115; 47; 109; 109; 47; 105; 110; 105; 116; 46; 108; 117; 97])]).
+Proof. cbv zeta. repeat split; vm_compute; reflexivity. Qed.
+Print Assumptions C18_cursor_prefix_refuted.
+
+(* non-vacuity of C18_features_agree_cursor / C18_cursor_exact: the cursor at every column of "re" in require("re") *)
+Example C18_cursor_inhabited :
+  let g := [(PDofile, []); (PRequire, [mk_occ 10 23 8 12]); (PImportLua, []); (PImport, [])] in
+  let files := [f_ws_main; [47; 119; 115; 47; 114; 101; 46; 108; 117; 97]] in
+  let st := idx_run (map Ins files) in
+  forallb (fun col => one_span col g) [19; 20; 21]%nat = true /\
+  map (fun col => cursor_pick true ln_require_re col 0 g) [18; 19; 20; 21; 22]%nat
+    = [None; Some (PRequire, [114; 101]); Some (PRequire, [114; 101]); Some (PRequire, [114; 101]); None] /\
+  r_resolved (check_refer (fun _ => false) ws_cfg st f_ws_main KRequire [114; 101]) = [[47; 119; 115; 47; 114; 101; 46; 108; 117; 97]] /\
+  open_outcomes ws_cfg st (fun f => fmem f files) f_ws_main (cursor_list ws_cfg ln_require_re 20 0 g)
+    = [Some ([114; 101; 46; 108; 117; 97], [47; 119; 115; 47; 114; 101; 46; 108; 117; 97])].
+Proof. cbv zeta. repeat split; vm_compute; reflexivity. Qed.
+
+(* ---- calcMatchStrScore located the name by strings.LastIndex(candidate, name) (fixes/C18-score-position.diff) ----
+   The module "a" (one of a, l, u, lu, ua, lua) is found inside ".lua": the part before it is ".../a.lu" for the
+   analysis (name "a") and ".../" for definition / hover (name "a.lua"). The two features then chose different files
+   only in an extreme tree: the referencing file in a directory NAMED a.lu next to a.lua, 100 directories deep, and a
+   second a.lua one level higher with a lesser path - but C18 is about every tree. Before: the analysis loads
+   /ws/d/../d/a.lua (score -101970 against -101980), definition sees a tie (-101980) and takes the lesser path
+   /ws/c/../c/a.lua. Deployed: the same scores for both names, both features answer /ws/c/../c/a.lua. *)
+Definition deep (seg : list N) (k : nat) (tail : list N) : list N :=
+  [47; 119; 115] ++ concat (repeat seg k) ++ tail.
+Definition sc_cur : list N := deep [47; 100] 100 [47; 97; 46; 108; 117; 47; 109; 97; 105; 110; 46; 108; 117; 97].  (* /ws(/d)^100/a.lu/main.lua *)
+Definition sc_c1 : list N := deep [47; 100] 100 [47; 97; 46; 108; 117; 97].                                         (* /ws(/d)^100/a.lua *)
+Definition sc_c2 : list N := deep [47; 99] 99 [47; 97; 46; 108; 117; 97].                                           (* /ws(/c)^99/a.lua *)
+Theorem C18_score_prefix_refuted :
+  lua_overlap (mod_path [97]) = true /\
+  BinInt.Z.ltb (calc_score_g false sc_cur [97] sc_c2) (calc_score_g false sc_cur [97] sc_c1) = true /\
+  calc_score_g false sc_cur [97; 46; 108; 117; 97] sc_c1 = calc_score_g false sc_cur [97; 46; 108; 117; 97] sc_c2 /\
+  bytes_ltb sc_c2 sc_c1 = true /\
+  (let files := [sc_cur; sc_c1; sc_c2] in
+   let st := idx_run (map Ins files) in
+   all_lua files = true /\
+   r_resolved (check_refer (fun _ => false) ws_cfg st sc_cur KRequire [97]) = [sc_c2] /\
+   open_outcomes ws_cfg st (fun f => fmem f files) sc_cur (open_list ws_cfg true false [97]) = [Some ([97; 46; 108; 117; 97], sc_c2)]).
+Proof. cbv zeta. repeat split; vm_compute; reflexivity. Qed.
+Print Assumptions C18_score_prefix_refuted.
+
+(* ties between equally placed modules named "a": both features answer the same file (the name was excluded before) *)
+Example C18_ties_overlap_inhabited :
+  let fa := [47;119;115;47;98;47;97;46;108;117;97] in        (* /ws/b/a.lua *)
+  let fb := [47;119;115;47;100;47;97;46;108;117;97] in       (* /ws/d/a.lua *)
+  let files := [fb; fa; f_ws_c_x] in
+  let st := idx_run (map Ins files) in
+  all_lua files = true /\ lua_overlap (mod_path [97]) = true /\
+  r_resolved (check_refer (fun _ => false) ws_cfg st f_ws_c_x KRequire [97]) = [fa] /\
+  open_outcomes ws_cfg st (fun f => fmem f files) f_ws_c_x (open_list ws_cfg true false [97]) = [Some ([97; 46; 108; 117; 97], fa)].
+Proof. cbv zeta. repeat split; vm_compute; reflexivity. Qed.
